@@ -25,7 +25,11 @@ RULE = ("histories of 1-60 generate(n)/skip(n) requests on one generator "
         "ints or np.int16/32/64; every returned chunk is held by reference and "
         "re-compared after later requests; the module-level "
         "generate_jakes_samples() is driven in chains that pass the returned time "
-        "and the same phases back in (start indexes up to 1e10).")
+        "and the same phases back in (start indexes up to 1e10).  The long-run "
+        "generator fetches one stretch in 300-6000 consecutive requests of 1-3 "
+        "samples (a per-symbol simulator loop) starting at positions 1..1e10 and "
+        "decides its tail against the model and the whole stretch against ONE "
+        "request of a twin generator.")
 ASSUMPTIONS = [
     "sample k is compared within sqrt(L) (2 pi Fd t_k eps 40 + 1e-12): any "
     "implementation that forms k*Ts in double meets it, a relative drift of "
@@ -339,12 +343,105 @@ def case_function(ctx, rng, idx):
         t = t2
 
 
+def case_longrun(ctx, rng, idx):
+    """A long stretch fetched in hundreds to thousands of tiny requests (the
+    way a per-symbol simulator loop uses the generator), starting at small and
+    at very large positions: sample k must still be the model value at k*Ts,
+    and the concatenation must equal ONE request of a twin generator."""
+    shape = [None, (2,)][idx % 2]
+    Ts = [1e-3, 1e-4, 3.25e-8, 0.37, 1e-9][(idx // 2) % 5]
+    Fd = [100.0, 0.3 / Ts, 5.0][(idx // 10) % 3]
+    if Fd * Ts > 0.5:
+        Fd = 0.3 / Ts
+    L = int(rng.integers(1, 4))
+    seed = int(rng.integers(0, 2 ** 31))
+    st = shape_tuple(shape)
+    tag = {"Fd": Fd, "Ts": Ts, "L": L, "shape": shape, "seed": seed, "entry": "long-run"}
+    okc, res = ctx.call("request-shape", build, rng, seed, Fd, Ts, L, shape, detail=tag)
+    if not okc:
+        return
+    g, rec = res
+    first = np.asarray(g.get_samples())
+    want_shape = (L,) + st + (1,)
+    cands = [d for d in rec.draws if d.shape == want_shape]
+    phi = psi = None
+    if len(cands) >= 2 and first.shape == st + (1,):
+        for a, b in ((cands[0], cands[1]), (cands[1], cands[0])):
+            h0 = model_samples(2 * np.pi * a, 2 * np.pi * b, Fd, Ts, L, [0])
+            if np.max(np.abs(h0 - first)) <= 1e-12 * math.sqrt(L) + 64 * EPS * math.sqrt(L):
+                phi, psi = 2 * np.pi * a, 2 * np.pi * b
+                break
+    start = [0, 1e3, 1e6, 1e8, 1e10][int(rng.integers(0, 5))]
+    k = 1
+    if start:
+        nskip = int(start * rng.uniform(0.3, 1.0))
+        okc, _ = ctx.call("request-shape", g.skip_samples_for_next_generation, nskip,
+                          detail={**tag, "skip": nskip})
+        if not okc:
+            return
+        k += nskip
+    k0 = k
+    nreq = int(rng.integers(300, 1200)) if ctx.tier == "quick" else int(rng.integers(300, 6000))
+    sizes = rng.integers(1, 4, size=nreq)
+    if rng.random() < 0.3:
+        sizes[:] = 1
+    chunks = []
+    d = lambda **e: (lambda: {**tag, "start": k0, "requests": nreq, **e})
+    for n in sizes:
+        n = int(n)
+        try:
+            g.generate_more_samples(n)
+            c = g.get_samples()
+        except Exception as e:           # noqa: BLE001 - the library raised mid-run
+            ctx.ev("request-shape", False, cls="generate-raised", detail=d(exc=repr(e), k=k))
+            return
+        if np.shape(c) != st + (n,):
+            ctx.ev("request-shape", False, cls="wrong-count-or-shape",
+                   detail=d(got=np.shape(c), want=st + (n,), k=k))
+            return
+        chunks.append(c)
+        k += n
+    ctx.ev("request-shape", True, n=nreq)
+    allh = np.concatenate([np.asarray(c) for c in chunks], axis=-1)
+    total = k - k0
+    tk = float(k * Ts)
+    if phi is not None:
+        # decide the tail (where any accumulated drift is largest) and a spread
+        pick = np.unique(np.concatenate([[0, total - 1], np.arange(max(0, total - 40), total),
+                                         rng.integers(0, total, size=60)]))
+        hm = model_samples(phi, psi, Fd, Ts, L, k0 + pick)
+        tol = math.sqrt(L) * (2 * math.pi * Fd * tk * EPS * 40 + 1e-12)
+        err = float(np.max(np.abs(allh[..., pick] - hm)))
+        ctx.stat("sample-equals-model", err / tol)
+        ctx.ev("sample-equals-model", err <= tol, n=len(pick), cls="long-run-of-small-requests",
+               detail=d(error=err, tolerance=tol, got=allh[..., -3:].ravel()[:3],
+                        want=hm[..., -3:].ravel()[:3]))
+    else:
+        ctx.tally("absolute-model-not-attached")
+    g2, _ = build(rng, seed, Fd, Ts, L, shape)
+    try:
+        if k0 - 1 > 0:
+            g2.skip_samples_for_next_generation(k0 - 1)
+        g2.generate_more_samples(total)
+        s2 = np.asarray(g2.get_samples())
+        tol = math.sqrt(L) * (2 * math.pi * Fd * tk * EPS * 80 + 1e-12)
+        same = s2.shape == allh.shape and float(np.max(np.abs(s2 - allh))) <= tol
+        ctx.ev("chunking-independent", same, cls="long-run-twin",
+               detail=d(twin_shape=s2.shape, maxdiff=float(np.max(np.abs(s2 - allh)))
+                        if s2.shape == allh.shape else None, tolerance=tol))
+    except Exception as e:               # noqa: BLE001
+        ctx.ev("chunking-independent", False, cls="twin-raised", detail=d(exc=repr(e)))
+    ctx.sig("long", len(st), L, Ts, int(math.log10(max(k0, 1))), nreq // 500, bool(np.all(sizes == 1)))
+    ctx.sample("long-run", {**tag, "start": k0, "requests": nreq, "samples": total})
+
+
 def classify(w):
     return None
 
 
 GENS = {"history": Gen(case_history, 1000, 8000),
-        "function": Gen(case_function, 600, 60000)}
+        "function": Gen(case_function, 600, 60000),
+        "long-run": Gen(case_longrun, 60, 4000)}
 MIN_EVALS = {"request-shape": 2000, "sample-equals-model": 5000,
              "chunking-independent": 1000, "magnitude-bound": 2000,
              "zero-doppler-constant": 300}
